@@ -55,7 +55,7 @@ impl Property for C19 {
         ]
     }
     fn expected_probes(&self) -> Vec<&'static str> {
-        vec!["drain_always", "drain_sometimes", "drain_never", "toggle_checked", "ay_enabled", "many_toggles_in_frame", "multi_frame_call", "rate_low", "rate_high", "szx_load_between_frames"]
+        vec!["drain_always", "drain_sometimes", "drain_never", "toggle_checked", "ay_enabled", "many_toggles_in_frame", "multi_frame_call", "rate_low", "rate_high", "szx_load_between_frames", "ay_switched_by_host"]
     }
 
     fn gen(&self, rng: &mut Rng, tier: Tier, _idx: u64) -> Scenario {
@@ -71,6 +71,7 @@ impl Property for C19 {
         sc.set("drain", *rng.pick(&[0i64, 0, 1, 2]));
         sc.set("drain_j", rng.range(2, 4));
         let snaps = rng.chance(1, 3);
+        let ay_sets = rng.chance(1, 3);
         let f: i64 = if m128 { 70908 } else { 69888 };
         let frames = if tier == Tier::Quick { rng.range(3, 6) } else { rng.range(3, 12) };
         for fr in 0..frames {
@@ -81,6 +82,10 @@ impl Property for C19 {
                 sc.op("out", &[fr, t, (rng.u8() & 0x1F) as i64]);
             }
             sc.op("frame", &[fr, rng.range(1, 3)]);
+            if ay_sets && rng.chance(1, 2) {
+                // the host switches AY sound on or off between two frames
+                sc.op("ayset", &[rng.range(0, 1)]);
+            }
             if snaps && rng.chance(1, 2) {
                 // the host loads an SZX snapshot between two frames; it carries the speaker / MIC levels
                 sc.op("snap", &[(rng.u8() & 0x18) as i64, rng.range(0, 7)]);
@@ -133,7 +138,7 @@ impl Property for C19 {
             e.verif_set_frame_clocks(0);
         }
         let vol = volume as f64 / 200.0;
-        let bound = ((0.6 + if ay { 3.0 } else { 0.0 }) * vol + 1e-6) as f32;
+        let bound_for = |with_ay: bool| ((0.6 + if with_ay { 3.0 } else { 0.0 }) * vol + 1e-6) as f32;
         let mut cur_level = 0.0f64; // beeper level in force
         let mut changes: Vec<(i64, f64)> = vec![]; // (frame-relative T of the port cycle, new level) in this frame
         let mut pending: Vec<(i64, f64)> = vec![];
@@ -142,7 +147,11 @@ impl Property for C19 {
         let mut audio: Vec<(f32, f32)> = vec![];
         let mut frames_total = 0usize;
         let mut undrained_frames = 0usize;
+        // AY currently mixed in (settings, later changed by the host through set_ay_enabled)
+        let mut ay_now = ay;
+        let mut ay_ever = ay;
         for op in &sc.ops {
+            ay_ever |= ay_now;
             match op.k.as_str() {
                 "out" => {
                     if frame_done > 0 {
@@ -173,6 +182,14 @@ impl Property for C19 {
                     st.pc = IDLE;
                     st.to_impl(e.verif_cpu());
                     ctx.units += 1;
+                }
+                "ayset" => {
+                    if frame_done > 0 || !pending.is_empty() || !changes.is_empty() {
+                        continue;
+                    }
+                    ctx.probe("ay_switched_by_host");
+                    ay_now = op.arg(0) != 0;
+                    e.set_ay_enabled(ay_now);
                 }
                 "snap" => {
                     if frame_done > 0 || !pending.is_empty() || !changes.is_empty() || e.verif_frame_clocks() > 64 {
@@ -243,6 +260,7 @@ impl Property for C19 {
                             return Err(Fail::new("C19.queue_bound", &format!("machine={},rate={}", machine, rate), format!("{} samples queued after {} undrained frames (two frames' worth is {})", n, undrained_frames, 2 * spf)));
                         }
                         undrained_frames = 0;
+                        let bound = bound_for(ay_ever || ay_now);
                         for (k, s) in audio.iter().enumerate() {
                             if !s.0.is_finite() || !s.1.is_finite() || s.0.abs() > bound || s.1.abs() > bound {
                                 return Err(Fail::new(
@@ -252,7 +270,7 @@ impl Property for C19 {
                                 ));
                             }
                         }
-                        if drain == 0 && !ay {
+                        if drain == 0 && !ay_now && !ay_active {
                             // per-sample level, +-1 sample around each change
                             let tpf = f as f64 / spf as f64;
                             for (k, s) in audio.iter().enumerate() {
@@ -327,6 +345,7 @@ impl Property for C19 {
             if n >= 2 * spf {
                 return Err(Fail::new("C19.queue_bound", &format!("machine={},rate={}", machine, rate), format!("{} samples queued after {} frames without draining (two frames' worth is {})", n, undrained_frames, 2 * spf)));
             }
+            let bound = bound_for(ay_ever || ay_now);
             for s in &audio {
                 if !s.0.is_finite() || !s.1.is_finite() || s.0.abs() > bound || s.1.abs() > bound {
                     return Err(Fail::new("C19.bound", &format!("machine={},ay={}", machine, ay_active as u8), format!("queued sample ({}, {}) exceeds the bound {} for volume {}", s.0, s.1, bound, volume)));
